@@ -1,6 +1,7 @@
 package rules
 
 import (
+	"go/token"
 	"fmt"
 	"go/types"
 
@@ -160,14 +161,53 @@ func c16r2(c *an.Ctx) {
 		}
 		c.Check(miss, "routeConn | prefix is replayed only on the default route", c.At(cs.Instr), "", "the consumed prefix is replayed to a routed listener (or not only on a miss)")
 		c.Check(buf != nil && (cs.Common().Args[0] == ssa.Value(buf) || an.ResolveAt(cs.Common().Args[0], cs.Instr.Block()) == ssa.Value(buf)), "routeConn | the replayed prefix is the bytes that were read", c.At(cs.Instr), "", "the default route's connection does not start with the bytes consumed from it")
-		// the same block selects the default listener
+		// the miss selects the default listener: m.def is read on the miss side, at or before the wrapping
 		okDef := false
-		for _, in := range cs.Instr.Block().Instrs {
-			if ld, isLd := in.(*ssa.UnOp); isLd && isLoadOfField(ld, def) {
-				okDef = true
+		an.Instrs(rc, func(in ssa.Instruction) {
+			ld, isLd := in.(*ssa.UnOp)
+			if !isLd || !isLoadOfField(ld, def) {
+				return
 			}
-		}
+			if in.Block() != cs.Instr.Block() && !in.Block().Dominates(cs.Instr.Block()) {
+				return
+			}
+			for _, g := range an.GuardsOf(in.Block()) {
+				if ex, isEx := g.Cond.(*ssa.Extract); isEx && ex.Index == 1 && !g.True && lookup != nil && ex.Tuple == ssa.Value(lookup) {
+					okDef = true
+				}
+			}
+		})
 		c.Check(okDef, "routeConn | a miss selects the default listener", c.At(cs.Instr), "", "an unrouted connection is not given to the default listener")
+		// besides the miss, the wrapping may only depend on whether any prefix byte was consumed at all
+		okOnly := true
+		for _, g := range an.GuardsOf(cs.Instr.Block()) {
+			if lookup != nil && g.If != nil && (g.If.Block() == lookup.Block() || g.If.Block().Dominates(lookup.Block())) {
+				if ex, isEx := g.Cond.(*ssa.Extract); !isEx || ex.Tuple != ssa.Value(lookup) {
+					continue // tests made before the lookup (read errors)
+				}
+			}
+			if ex, isEx := g.Cond.(*ssa.Extract); isEx && lookup != nil && ex.Tuple == ssa.Value(lookup) {
+				continue
+			}
+			cmp, isCmp := an.CmpOf(g)
+			isLenBuf := func(v ssa.Value) bool {
+				if isLoadOfField(v, prefixLen) {
+					return true
+				}
+				lc, isCall := v.(*ssa.Call)
+				if !isCall {
+					return false
+				}
+				b, isB := lc.Common().Value.(*ssa.Builtin)
+				return isB && b.Name() == "len" && buf != nil && (lc.Common().Args[0] == ssa.Value(buf) || an.ResolveAt(lc.Common().Args[0], lc.Block()) == ssa.Value(buf))
+			}
+			isZero := func(v ssa.Value) bool { k, isK := an.ConstInt(v); return isK && k == 0 }
+			if isCmp && (cmp.Is(token.GTR, isLenBuf, isZero) || cmp.Is(token.NEQ, isLenBuf, isZero)) {
+				continue
+			}
+			okOnly = false
+		}
+		c.Check(okOnly, "routeConn | every consumed prefix is replayed on the default route", c.At(cs.Instr), "", "the default route's connection is wrapped only under a further condition: on the other paths the consumed prefix is lost")
 	}
 	c.Floor("newPrefixConn calls", 1, nPC)
 	// ownership typestate: closed xor sent
@@ -238,7 +278,6 @@ func c16r2(c *an.Ctx) {
 			}
 		}
 	})
-	c.Check(okMR, "newPrefixConn | reads replay the consumed prefix, then the connection", c.P.Pos(npc.Pos()), "", "the default route's connection does not yield the client's bytes from the first byte (prefix missing or after the payload)")
 	pr := c.Fn("drpcmigrate", "(*prefixConn).Read")
 	okRead2 := false
 	an.Instrs(pr, func(in ssa.Instruction) {
@@ -248,6 +287,15 @@ func c16r2(c *an.Ctx) {
 			}
 		}
 	})
+	if !okMR {
+		// the other way to say it: the wrapper keeps the unread prefix itself; Read hands out prefix bytes (and drops
+		// exactly those from the prefix) while there are any, and goes to the connection only once it is empty
+		okMR, okRead2 = prefixReaderByHand(c, npc, pr), true
+		if !okMR {
+			okRead2 = false
+		}
+	}
+	c.Check(okMR, "newPrefixConn | reads replay the consumed prefix, then the connection", c.P.Pos(npc.Pos()), "", "the default route's connection does not yield the client's bytes from the first byte (prefix missing or after the payload)")
 	c.Check(okRead2, "(*prefixConn).Read | reads through the prefix-replaying reader", c.P.Pos(pr.Pos()), "", "prefixConn.Read bypasses the replaying reader: the consumed prefix is lost")
 	// the hand-off channel is a rendezvous: a send that succeeds means an Accept call owns the connection.
 	// With a buffer, routeConn "delivers" into a queue that a closed or stopped listener never drains.
@@ -335,7 +383,7 @@ func c16r3(c *an.Ctx) {
 	})
 	c.Check(!usesOutside, "(*HeaderConn).Write | the header bytes are used only inside the Once", c.P.Pos(fn.Pos()), "", "the header can be written outside the Once (more than once)")
 	// inside the closure: one underlying Write of append([]byte(header), buf...)
-	nW, okConcat := 0, false
+	nW, nGood, okConcat := 0, 0, false
 	an.Instrs(clo, func(in ssa.Instruction) {
 		call, ok := in.(*ssa.Call)
 		if !ok || !call.Common().IsInvoke() || call.Common().Method.Name() != "Write" {
@@ -379,12 +427,58 @@ func c16r3(c *an.Ctx) {
 			}
 			return nil, false
 		}
+		good := false
 		if ps, ok := parts(call.Common().Args[0], 0); ok && len(ps) == 2 {
 			if isLoadOfField(an.Unwrap(an.Resolve(ps[0])), header) {
-				okConcat = true
+				good = true
 			}
 		}
+		// with an empty header, header+payload is the payload: the caller's bytes as they are, on a path that knows
+		// len(header) == 0
+		if !good && isCapturedParam(call.Common().Args[0], clo, fn, 1) {
+			for _, g := range an.GuardsOf(call.Block()) {
+				if cmp, ok := an.CmpOf(g); ok && cmp.Is(token.EQL, func(v ssa.Value) bool {
+					lc, isCall := v.(*ssa.Call)
+					if !isCall {
+						return false
+					}
+					b, isB := lc.Common().Value.(*ssa.Builtin)
+					return isB && b.Name() == "len" && isLoadOfField(an.Unwrap(lc.Common().Args[0]), header)
+				}, func(v ssa.Value) bool { k, isK := an.ConstInt(v); return isK && k == 0 }) {
+					good = true
+				}
+			}
+		}
+		if good {
+			nGood++
+		}
 	})
+	// exactly one underlying write on every path through the closure
+	wflow := &an.Flow{Fn: clo, Init: []string{"0"}, Step: func(st string, in ssa.Instruction) []string {
+		if call, ok := in.(*ssa.Call); ok && call.Common().IsInvoke() && call.Common().Method.Name() == "Write" {
+			if st == "0" {
+				return []string{"1"}
+			}
+			return []string{"many"}
+		}
+		return nil
+	}}
+	wres := wflow.Run()
+	onePerPath := true
+	for _, ret := range an.Returns(clo) {
+		if !wres.Reachable(ret.Block()) {
+			continue
+		}
+		for _, st := range wres.Before(ret) {
+			if st != "1" {
+				onePerPath = false
+			}
+		}
+	}
+	okConcat = nW >= 1 && nGood == nW && onePerPath
+	if okConcat {
+		nW = 1
+	}
 	c.Check(nW == 1 && okConcat, "(*HeaderConn).Write | header and the caller's bytes go out in one underlying Write, header first", c.P.Pos(clo.Pos()), "", "the first write does not send header+payload as one write with the header in front")
 	// the plain write outside the closure is reachable only when the Once did not run in this call
 	nPlain := 0
@@ -487,4 +581,168 @@ func c16r4(c *an.Ctx) {
 		}
 	})
 	c.Check(okAcc && nSel >= 1, "(*listener).Accept | blocking select includes the done channel", c.P.Pos(ac.Pos()), "", "Accept can block without noticing that the listener was closed")
+}
+
+// isCapturedParam: v, inside closure clo of fn, is the value of fn's parameter number idx (captured through its
+// local copy, which nothing else is stored to).
+func isCapturedParam(v ssa.Value, clo, fn *ssa.Function, idx int) bool {
+	ld, ok := an.Unwrap(v).(*ssa.UnOp)
+	if !ok || ld.Op != token.MUL {
+		return false
+	}
+	fv, ok := ld.X.(*ssa.FreeVar)
+	if !ok || idx >= len(fn.Params) {
+		return false
+	}
+	k := -1
+	for i, f := range clo.FreeVars {
+		if f == fv {
+			k = i
+		}
+	}
+	if k < 0 {
+		return false
+	}
+	found := false
+	an.Instrs(fn, func(in ssa.Instruction) {
+		mc, isMC := in.(*ssa.MakeClosure)
+		if !isMC || mc.Fn != ssa.Value(clo) || k >= len(mc.Bindings) {
+			return
+		}
+		al, isAl := mc.Bindings[k].(*ssa.Alloc)
+		if !isAl {
+			return
+		}
+		stores, okAll := 0, true
+		for _, r := range *al.Referrers() {
+			if st, isSt := r.(*ssa.Store); isSt && st.Addr == ssa.Value(al) {
+				stores++
+				if st.Val != ssa.Value(fn.Params[idx]) {
+					okAll = false
+				}
+			}
+		}
+		// and the closure does not assign it either
+		for _, r := range *fv.Referrers() {
+			if st, isSt := r.(*ssa.Store); isSt && st.Addr == ssa.Value(fv) {
+				okAll = false
+			}
+		}
+		if stores == 1 && okAll {
+			found = true
+		}
+	})
+	return found
+}
+
+// prefixReaderByHand recognises a hand-written prefix-replaying connection: the constructor stores its byte-slice
+// argument in a field P and its connection argument in the embedded Conn; every way out of Read is either
+//   - (n, nil) with n = copy(p, P) after P was advanced to P[n:], on a path that knows len(P) != 0, or
+//   - the results of Conn.Read(p), on a path that knows len(P) == 0.
+func prefixReaderByHand(c *an.Ctx, ctor, read *ssa.Function) bool {
+	// the field holding the prefix
+	var pf *types.Var
+	okConn := false
+	an.Instrs(ctor, func(in ssa.Instruction) {
+		st, ok := in.(*ssa.Store)
+		if !ok {
+			return
+		}
+		fv := an.PathOf(st.Addr).Last()
+		if fv == nil {
+			return
+		}
+		if st.Val == ssa.Value(ctor.Params[0]) {
+			pf = fv
+		}
+		if mi, isMI := st.Val.(*ssa.MakeInterface); isMI && mi.X == ssa.Value(ctor.Params[1]) {
+			okConn = true
+		}
+		if st.Val == ssa.Value(ctor.Params[1]) {
+			okConn = true
+		}
+	})
+	if pf == nil || !okConn || len(read.Params) < 2 {
+		return false
+	}
+	p := read.Params[1]
+	isLenP := func(v ssa.Value) bool {
+		lc, isCall := v.(*ssa.Call)
+		if !isCall {
+			return false
+		}
+		b, isB := lc.Common().Value.(*ssa.Builtin)
+		return isB && b.Name() == "len" && isLoadOfField(lc.Common().Args[0], pf)
+	}
+	isZero := func(v ssa.Value) bool { k, isK := an.ConstInt(v); return isK && k == 0 }
+	nReplay, nDelegate := 0, 0
+	for _, rc := range an.ReturnCases(read) {
+		if len(rc.Vals) != 2 {
+			return false
+		}
+		empty, nonEmpty := false, false
+		for _, g := range rc.Guards {
+			if g.If != nil && !an.InstrDominates(g.If, rc.Ret) && g.If.Block() != rc.Ret.Block() {
+				// a test made after the value was fixed does not qualify the case
+			}
+			if cmp, ok := an.CmpOf(g); ok {
+				if cmp.Is(token.EQL, isLenP, isZero) {
+					empty = true
+				}
+				if cmp.Is(token.NEQ, isLenP, isZero) || cmp.Is(token.GTR, isLenP, isZero) {
+					nonEmpty = true
+				}
+			}
+		}
+		n, e := an.Resolve(rc.Vals[0]), an.Resolve(rc.Vals[1])
+		// delegation
+		if ex, isEx := n.(*ssa.Extract); isEx && ex.Index == 0 {
+			call, isCall := ex.Tuple.(*ssa.Call)
+			ex2, isEx2 := e.(*ssa.Extract)
+			if isCall && isEx2 && ex2.Tuple == ex.Tuple && ex2.Index == 1 && call.Common().IsInvoke() && call.Common().Method.Name() == "Read" && len(call.Common().Args) == 1 && call.Common().Args[0] == ssa.Value(p) {
+				if fv := an.PathOf(call.Common().Value).Last(); fv != nil && fv.Name() == "Conn" {
+					// the first emptiness test decides: it must be the one dominating the call
+					emptyAtCall := false
+					for _, g := range an.GuardsOf(call.Block()) {
+						if cmp, ok := an.CmpOf(g); ok && cmp.Is(token.EQL, isLenP, isZero) {
+							emptyAtCall = true
+						}
+					}
+					if emptyAtCall {
+						nDelegate++
+						continue
+					}
+				}
+			}
+			return false
+		}
+		// replay
+		if cp, isCall := n.(*ssa.Call); isCall {
+			b, isB := cp.Common().Value.(*ssa.Builtin)
+			if isB && b.Name() == "copy" && cp.Common().Args[0] == ssa.Value(p) && isLoadOfField(cp.Common().Args[1], pf) && an.IsNilConst(e) {
+				// the prefix is advanced by exactly what was copied, before returning
+				advanced := false
+				for _, st := range fieldStores(read, pf) {
+					if sl, isSl := st.Val.(*ssa.Slice); isSl && sl.Low == ssa.Value(cp) && sl.High == nil && isLoadOfField(sl.X, pf) && an.InstrDominates(cp, st) && an.InstrDominates(st, rc.Ret) {
+						advanced = true
+					}
+				}
+				nonEmptyAtCopy := false
+				for _, g := range an.GuardsOf(cp.Block()) {
+					if cmp, ok := an.CmpOf(g); ok && (cmp.Is(token.NEQ, isLenP, isZero) || cmp.Is(token.GTR, isLenP, isZero)) {
+						nonEmptyAtCopy = true
+					}
+				}
+				if advanced && nonEmptyAtCopy {
+					nReplay++
+					continue
+				}
+			}
+			return false
+		}
+		_ = empty
+		_ = nonEmpty
+		return false
+	}
+	return nReplay > 0 && nDelegate > 0
 }
